@@ -71,7 +71,7 @@ template<int N = 0, typename F> void for_type(int t, F&& f)
 }
 
 // ------------------------------------------------------------------------------------------------ operations
-enum OpK { O_CREATE = 1, O_CLONE, O_CONVERT, O_MOVE_ASSIGN, O_MOVE_CTOR, O_RANGE, O_LAYOUT, O_LAYOUT_MOVE, O_CLEAR, O_DESTROY, O_FORMAT };
+enum OpK { O_CREATE = 1, O_CLONE, O_CONVERT, O_MOVE_ASSIGN, O_MOVE_CTOR, O_RANGE, O_LAYOUT, O_LAYOUT_MOVE, O_CLEAR, O_DESTROY, O_FORMAT, O_SHARE_PTR };
 struct Op { int k = 0, i = 0, j = 0, a = 0; };
 static const char* clone_name[5] = {"Shallow", "Layout", "Weak", "Deep", "Allocate"};
 static std::string op_str(const Op& o)
@@ -79,7 +79,7 @@ static std::string op_str(const Op& o)
   std::ostringstream s;
   switch(o.k)
   {
-  case O_CREATE: s << "create(s" << o.j << "," << (o.a == 0 ? "filled" : "empty") << ")"; break;
+  case O_CREATE: s << "create(s" << o.j << "," << (o.a == 0 ? "filled" : o.a == 1 ? "empty" : "unsorted") << ")"; break;
   case O_CLONE: s << "s" << o.j << ".clone(s" << o.i << "," << clone_name[o.a] << ")"; break;
   case O_CONVERT: s << "s" << o.j << ".convert(s" << o.i << ")"; break;
   case O_MOVE_ASSIGN: s << "s" << o.j << "=move(s" << o.i << ")"; break;
@@ -89,7 +89,8 @@ static std::string op_str(const Op& o)
   case O_LAYOUT_MOVE: s << "layout(s" << o.j << ")=move(layout(s" << o.i << "))"; break;
   case O_CLEAR: s << "s" << o.i << ".clear()"; break;
   case O_DESTROY: s << "destroy(s" << o.i << ")"; break;
-  case O_FORMAT: s << "s" << o.i << ".format(9)"; break;
+  case O_FORMAT: s << "s" << o.i << (o.a == 0 ? ".format(9)" : ".format()"); break;
+  case O_SHARE_PTR: s << "s" << o.j << "=T(size(s" << o.i << "), s" << o.i << ".elements())"; break;
   }
   return s.str();
 }
@@ -99,7 +100,7 @@ static std::string op_class(const Op& o, const int* ty)
   std::ostringstream s;
   switch(o.k)
   {
-  case O_CREATE: s << "create " << t_name[ty[o.j]] << (o.a == 0 ? " filled" : " empty"); break;
+  case O_CREATE: s << "create " << t_name[ty[o.j]] << (o.a == 0 ? " filled" : o.a == 1 ? " empty" : " from unsorted arrays"); break;
   case O_CLONE: s << t_name[ty[o.j]] << ".clone(" << t_name[ty[o.i]] << "," << clone_name[o.a] << ")" << (o.i == o.j ? " self" : ""); break;
   case O_CONVERT: s << t_name[ty[o.j]] << ".convert(" << t_name[ty[o.i]] << ")"; break;
   case O_MOVE_ASSIGN: s << t_name[ty[o.j]] << " move-assign" << (o.i == o.j ? " self" : ""); break;
@@ -109,7 +110,8 @@ static std::string op_class(const Op& o, const int* ty)
   case O_LAYOUT_MOVE: s << "SparseLayout move-assign (" << t_name[ty[o.i]] << ")"; break;
   case O_CLEAR: s << t_name[ty[o.i]] << ".clear()"; break;
   case O_DESTROY: s << "~" << t_name[ty[o.i]]; break;
-  case O_FORMAT: s << t_name[ty[o.i]] << ".format()"; break;
+  case O_FORMAT: s << t_name[ty[o.i]] << (o.a == 0 ? ".format(value)" : ".format() default"); break;
+  case O_SHARE_PTR: s << t_name[ty[o.j]] << "(size, data pointer of another vector)"; break;
   }
   return s.str();
 }
@@ -245,6 +247,7 @@ static Verdict m_apply(MState& M, const Op& o, const int* ty, std::string& why)
       break;
     case K_SV:
       if(o.a == 0) { sj.si = {3, 2, 2, 3, 1}; sj.el.push_back(m_new(M, 2, db, {1, 2}, true)); sj.ix.push_back(m_new(M, 2, ib, {0, 2}, true)); }
+      else if(o.a == 2) { sj.si = {3, 2, 2, 3, 1}; sj.el.push_back(m_new(M, 2, db, {-2, 0}, true)); sj.ix.push_back(m_new(M, 2, ib, {0, 2}, true)); }  // given as (2:0, 0:-2) unsorted, sorted by the ctor
       else sj.si = {3, 0, 0, 3, 1};
       break;
     }
@@ -355,6 +358,16 @@ static Verdict m_apply(MState& M, const Op& o, const int* ty, std::string& why)
   case O_LAYOUT_MOVE:
     if(si.si.size() < 4 || sj.si.size() < 4) { why = "layout() of a moved-from/cleared matrix"; return V_EXCLUDED; }
     break;  // two temporaries, one moved into the other, both destroyed: no effect
+  case O_SHARE_PTR:
+  {
+    // DenseVector(size, data): co-owner of a pool array handed over as a raw pointer
+    if(si.foreign) { why = "raw-pointer ctor from a ranged vector (pointer is not a pool chunk)"; return V_EXCLUDED; }
+    if(si.el.empty() || si.el[0].id < 0 || m_size0(si) == 0) { why = "raw-pointer ctor from a vector without elements"; return V_EXCLUDED; }
+    const MSlot src = si;
+    sj = MSlot(); sj.present = true; sj.si = {m_size0(src)};
+    m_share(M, src.el[0]); sj.el.push_back(src.el[0]);
+    break;
+  }
   case O_CLEAR:
     m_release_arrays(M, si); si.si.clear(); si.foreign = false;
     break;
@@ -367,7 +380,7 @@ static Verdict m_apply(MState& M, const Op& o, const int* ty, std::string& why)
       if(r.id < 0 || !M.arr.count(r.id)) continue;
       MArr& a = M.arr[r.id];
       // format() of an owner covers the whole array and makes it defined; a borrower writes its window only
-      for(Index k = 0; k < r.size; ++k) a.v[r.off + k] = 9.0;
+      for(Index k = 0; k < r.size; ++k) a.v[r.off + k] = (o.a == 0 ? 9.0 : 0.0);
       if(r.off == 0 && r.size == a.count) a.defined = true;
     }
     break;
@@ -383,7 +396,7 @@ static Verdict m_apply(MState& M, const Op& o, const int* ty, std::string& why)
 static void enumerate_ops(const MState& M, const int* ty, std::vector<Op>& out)
 {
   out.clear();
-  for(int j = 0; j < 3; ++j) if(!M.s[j].present) { out.push_back(Op{O_CREATE, j, j, 0}); out.push_back(Op{O_CREATE, j, j, 1}); }
+  for(int j = 0; j < 3; ++j) if(!M.s[j].present) { out.push_back(Op{O_CREATE, j, j, 0}); out.push_back(Op{O_CREATE, j, j, 1}); if(t_kind[ty[j]] == K_SV) out.push_back(Op{O_CREATE, j, j, 2}); }
   for(int i = 0; i < 3; ++i)
   {
     if(!M.s[i].present) continue;
@@ -397,7 +410,7 @@ static void enumerate_ops(const MState& M, const int* ty, std::vector<Op>& out)
       {
         if(M.s[j].present) out.push_back(Op{O_MOVE_ASSIGN, i, j, 0});
         if(i != j) out.push_back(Op{O_MOVE_CTOR, i, j, 0});
-        if((t_kind[ty[i]] == K_DV || t_kind[ty[i]] == K_DVB) && i != j && !M.s[j].present) { out.push_back(Op{O_RANGE, i, j, 0}); out.push_back(Op{O_RANGE, i, j, 1}); }
+        if((t_kind[ty[i]] == K_DV || t_kind[ty[i]] == K_DVB) && i != j && !M.s[j].present) { out.push_back(Op{O_RANGE, i, j, 0}); out.push_back(Op{O_RANGE, i, j, 1}); out.push_back(Op{O_SHARE_PTR, i, j, 0}); }
       }
       if(same_kind && (t_kind[ty[i]] == K_CSR || t_kind[ty[i]] == K_BCSR) && t_it[ty[i]] == t_it[ty[j]])
       {
@@ -408,6 +421,7 @@ static void enumerate_ops(const MState& M, const int* ty, std::vector<Op>& out)
     out.push_back(Op{O_CLEAR, i, i, 0});
     out.push_back(Op{O_DESTROY, i, i, 0});
     out.push_back(Op{O_FORMAT, i, i, 0});
+    out.push_back(Op{O_FORMAT, i, i, 1});
   }
 }
 
@@ -448,14 +462,17 @@ template<int N> ContP create_real(int variant)
   }
   else
   {
-    if(variant != 0) return std::make_unique<ContT<N>>(Index(3));
+    if(variant == 1) return std::make_unique<ContT<N>>(Index(3));
     DenseVector<DT, IT> val(2); DenseVector<IT, IT> idx(2);
+    if(variant == 2) { fill_vec(val, {0, -2}); fill_vec(idx, {2, 0}); return std::make_unique<ContT<N>>(Index(3), val, idx, false); }
     fill_vec(val, {1, 2}); fill_vec(idx, {0, 2});
     return std::make_unique<ContT<N>>(Index(3), val, idx);
   }
 }
 static ContP default_real(int t) { ContP r; for_type(t, [&](auto N) { r = std::make_unique<ContT<decltype(N)::value>>(); }); return r; }
 
+/// when set, same-type clones use the by-value overload `dst = src.clone(mode)`
+static bool g_alt = false;
 /// executes the real operation
 static void apply_real(Pool& P, const Op& o, const int* ty)
 {
@@ -473,7 +490,12 @@ static void apply_real(Pool& P, const Op& o, const int* ty)
         constexpr int ni = decltype(NI)::value, nj = decltype(NJ)::value;
         if constexpr(c_kind(ni) == c_kind(nj))
         {
-          if(o.k == O_CLONE) dst.obj.clone(src.obj, CloneMode(o.a)); else dst.obj.convert(src.obj);
+          if(o.k == O_CLONE)
+          {
+            if constexpr(ni == nj) { if(g_alt && o.i != o.j) dst.obj = src.obj.clone(CloneMode(o.a)); else dst.obj.clone(src.obj, CloneMode(o.a)); }
+            else dst.obj.clone(src.obj, CloneMode(o.a));
+          }
+          else dst.obj.convert(src.obj);
         }
         else if constexpr(((c_kind(ni) == K_DV && c_kind(nj) == K_DVB) || (c_kind(ni) == K_DVB && c_kind(nj) == K_DV)) && c_dt(ni) == c_dt(nj) && c_it(ni) == c_it(nj))
         {
@@ -543,17 +565,25 @@ static void apply_real(Pool& P, const Op& o, const int* ty)
     break;
   case O_CLEAR: visit(*P.s[o.i], [&](auto& x, auto) { x.obj.clear(); }); break;
   case O_DESTROY: P.s[o.i].reset(); break;
-  case O_FORMAT: visit(*P.s[o.i], [&](auto& x, auto) { x.obj.format(typename std::remove_reference<decltype(x.obj)>::type::DataType(9)); }); break;
+  case O_FORMAT: visit(*P.s[o.i], [&](auto& x, auto) { if(o.a == 0) x.obj.format(typename std::remove_reference<decltype(x.obj)>::type::DataType(9)); else x.obj.format(); }); break;
+  case O_SHARE_PTR:
+    visit(*P.s[o.i], [&](auto& src, auto NI)
+    {
+      constexpr int ni = decltype(NI)::value;
+      if constexpr(c_kind(ni) == K_DV) P.s[o.j] = std::make_unique<ContT<ni>>(src.obj.size(), src.obj.elements());
+      else if constexpr(c_kind(ni) == K_DVB) P.s[o.j] = std::make_unique<ContT<ni>>(src.obj.size(), src.obj.template elements<Perspective::pod>());
+    });
+    break;
   }
 }
 
 // ------------------------------------------------------------------------------------------------ observation
 struct RArr { const char* p = nullptr; Index size = 0; int ebytes = 8; std::vector<double> v; };
-struct RSlot { bool present = false; bool foreign = false; std::vector<Index> si; std::vector<RArr> el, ix; bool sizes_ok = true; };
+struct RSlot { bool present = false; bool foreign = false; std::vector<Index> si; std::vector<RArr> el, ix; bool sizes_ok = true; size_t n_sdt = 0; };
 
 template<typename DT_, typename IT_> RSlot observe(const Container<DT_, IT_>& c)
 {
-  RSlot r; r.present = true; r.foreign = c._foreign_memory; r.si = c._scalar_index;
+  RSlot r; r.present = true; r.foreign = c._foreign_memory; r.si = c._scalar_index; r.n_sdt = c._scalar_dt.size();
   r.sizes_ok = c._elements.size() == c._elements_size.size() && c._indices.size() == c._indices_size.size();
   for(size_t k = 0; k < c._elements.size() && k < c._elements_size.size(); ++k)
   {
@@ -634,6 +664,7 @@ struct Harness
       if(m.present != r.present) { bad("slot presence differs from the reference", sl); break; }
       if(!m.present) continue;
       if(!r.sizes_ok) { bad("array list and size list disagree", sl); break; }
+      if(r.n_sdt != 0) { bad("_scalar_dt not empty (none of these containers has scalar data)", sl); break; }
       if(m.foreign != r.foreign) { bad("_foreign_memory flag differs from the reference", sl + " impl=" + std::to_string(r.foreign)); break; }
       if(m.si != r.si)
       {
@@ -685,6 +716,57 @@ struct Harness
     }
     if(ok && pool.size() != M.arr.size()) bad("MemoryPool::_pool holds chunks no container refers to (leak)", "pool chunks=" + std::to_string(pool.size()) + " reference=" + std::to_string(M.arr.size()));
     if(ok && MemoryPool::allocated_memory() != bytes) bad("allocated_memory() differs from the reference", "");
+    return ok;
+  }
+
+  /// public accessors (size, used_elements, elements pointer, SparseVector element access incl. its lazy sort) against the
+  /// reference; called as the very FIRST access after the operation on alternate transitions, after the raw comparison otherwise
+  bool accessors(Pool& P, const MState& M, const std::string& opc)
+  {
+    bool ok = true;
+    for(int k = 0; k < 3 && ok; ++k)
+    {
+      if(!P.s[k] || !M.s[k].present) continue;
+      const MSlot& m = M.s[k];
+      visit(*P.s[k], [&](auto& x, auto NK)
+      {
+        constexpr int nk = decltype(NK)::value; constexpr int kind = c_kind(nk);
+        const Index sz = m.si.empty() ? Index(0) : m.si[0];
+        if(x.obj.size() != sz) { fail_once(opc + ": size() differs from the reference", "slot " + std::to_string(k)); ok = false; return; }
+        if constexpr(kind == K_DV || kind == K_DVB)
+        {
+          const void* e = x.obj.template elements<Perspective::pod>();
+          const void* want = x.obj._elements.empty() ? nullptr : x.obj._elements[0];
+          if(e != want) { fail_once(opc + ": elements() does not return the data array", ""); ok = false; }
+          if constexpr(kind == K_DV)
+          {
+            if(!m.el.empty() && m.el[0].id >= 0 && M.arr.count(m.el[0].id) && M.arr.at(m.el[0].id).defined)
+              for(Index i = 0; i < sz && ok; ++i) if(double(x.obj(i)) != M.arr.at(m.el[0].id).v[m.el[0].off + i]) { fail_once(opc + ": operator()(i) differs from the reference", "slot " + std::to_string(k)); ok = false; }
+          }
+        }
+        else if constexpr(kind == K_SV)
+        {
+          if(m.si.size() == 5)
+          {
+            if(x.obj.used_elements() != m.si[1]) { fail_once(opc + ": used_elements() differs from the reference", ""); ok = false; return; }
+            if(!m.el.empty() && m.el[0].id >= 0 && M.arr.count(m.el[0].id) && M.arr.at(m.el[0].id).defined && M.arr.at(m.ix[0].id).defined)
+            {
+              const MArr& ev = M.arr.at(m.el[0].id); const MArr& iv = M.arr.at(m.ix[0].id);
+              for(Index i = 0; i < sz && ok; ++i)
+              {
+                double want = 0.0; for(Index q = 0; q < m.si[1]; ++q) if(Index(iv.v[q]) == i) want = ev.v[q];
+                if(double(x.obj(i)) != want) { fail_once(opc + ": SparseVector operator()(i) differs from the reference", "index " + std::to_string(i)); ok = false; }
+              }
+            }
+          }
+        }
+        else
+        {
+          if(m.si.size() >= 4 && (x.obj.rows() != m.si[1] || x.obj.columns() != m.si[2] || x.obj.used_elements() != m.si[3])) { fail_once(opc + ": rows()/columns()/used_elements() differ from the reference", ""); ok = false; }
+        }
+      });
+    }
+    c.count("accessor_observations");
     return ok;
   }
 
@@ -745,7 +827,7 @@ struct Harness
     for(int s = 0; s < 3; ++s)
     {
       put(R[s].present); if(!R[s].present) continue;
-      put(R[s].foreign); put(R[s].si.size()); for(auto v : R[s].si) put(v);
+      put(R[s].foreign); put(R[s].n_sdt); put(R[s].si.size()); for(auto v : R[s].si) put(v);
       for(int pass = 0; pass < 2; ++pass)
       {
         const auto& ra = pass ? R[s].ix : R[s].el; const auto& ma = pass ? M.s[s].ix : M.s[s].el;
@@ -797,8 +879,10 @@ struct Harness
     return true;
   }
 
-  struct Frontier { std::vector<Op> hist; std::string key; };
+  struct Frontier { std::vector<Op> hist; std::string key; };   // key = implementation key (+ tag of a preceding model-level no-op)
+  unsigned alt_counter = 0;
 
+  static std::string impl_key(const std::string& k) { const size_t p = k.rfind("|after-noop:"); return (p != std::string::npos && p + 13 == k.size()) ? k.substr(0, p) : k; }
   void run(int max_depth, int abort_leaf_depth)
   {
     static const int fwd[3] = {0, 1, 2};
@@ -829,12 +913,13 @@ struct Harness
       for(const Frontier& fr : frontier)
       {
         if(c.cut()) { c.capped("deadline inside BFS"); return; }
+        c.heartbeat();
         cur_hist = &fr.hist; cur_op = nullptr;
         MState M0;
         {
           Pool P; replay(fr.hist, P, M0);
           c.count("replays_checked");
-          if(key_of(P, M0) != fr.key) { fail_once("replay of a history reached a different implementation state (nondeterminism)", ""); teardown(P, fwd, "replay"); continue; }
+          if(key_of(P, M0) != impl_key(fr.key)) { fail_once("replay of a history reached a different implementation state (nondeterminism)", ""); teardown(P, fwd, "replay"); continue; }
           teardown(P, fwd, "replay");
         }
         enumerate_ops(M0, ty, ops);
@@ -886,10 +971,17 @@ struct Harness
           }
           Pool P; MState Mr;
           replay(fr.hist, P, Mr);
+          ++alt_counter;
+          g_alt = (alt_counter & 1) != 0;
           apply_real(P, o, ty);
+          g_alt = false;
           c.count("transitions");
           c.count("traces_validated_against_impl");
-          bool ok = compare(P, M2, opc);
+          const bool first = (alt_counter & 2) != 0;
+          bool ok = true;
+          if(first) { ok = accessors(P, M2, opc + " [accessors as first access]"); c.count("first_access_observations"); }
+          if(ok) ok = compare(P, M2, opc);
+          if(ok && !first) ok = accessors(P, M2, opc);
           if(ok) ok = write_probe(P, M2, opc);
           if(!ok)
           {
@@ -901,7 +993,13 @@ struct Harness
             continue;
           }
           std::string ky;
-          if(ok) ky = key_of(P, M2);
+          if(ok)
+          {
+            ky = key_of(P, M2);
+            // pattern "hidden state behind the key": an operation that leaves the implementation state unchanged is not
+            // pruned at once - the state is explored one more level, tagged with the kind of the no-op that preceded it
+            if(ky == impl_key(fr.key)) { ky += std::string("|after-noop:") + char('A' + o.k); c.count("noop_transitions_kept"); }
+          }
           ok = teardown(P, fwd, opc) && ok;
           if(!ok) { c.outcome("violation"); continue; }
           if(seen.insert(ky).second)
